@@ -559,6 +559,7 @@ func gen(g *hx.Gen) {
 		if r.Chance(1, 8) {
 			init = append(init, "l."+hx.Hex([]byte(hx.Pick(r, pwPool))))
 		}
+		g.Stat("frames.sessions")
 		g.Emit("frames K=%s init=%s f=%s", kTable(sel), joinSemi(init), strings.Join(genFrames(r, g, sel, added), ";"))
 	}
 	// concurrent read-only calls through the pipelined client (FIFO matching of replies to callers)
@@ -586,6 +587,7 @@ func gen(g *hx.Gen) {
 	for i := 0; i < nEnc; i++ {
 		sel := pickSel(r)
 		ops := genSeqOps(r, g, sel, 1, false)
+		g.Stat("enc.client-request")
 		g.Emit("enc K=%s op=%s", kTable(sel), ops[0])
 	}
 }
